@@ -1156,6 +1156,10 @@ def sign(a):
 
 def _log1(x):
     if isinstance(x, SymReal):
+        from . import numfmt
+
+        if numfmt.active() and symx._innermost_repo_func() in symx.FORMAT_FUNCS:
+            return numfmt.ln(x)  # the floor(log(x) / log(10)) idiom of the formatting code
         return symx.log(x)
     if isinstance(x, SymBool):
         return symx.log(SymReal(symx.rv(x)))
@@ -1172,6 +1176,10 @@ def log(a):
 
 def _log10_1(x):
     if _is_sym(x):
+        from . import numfmt
+
+        if numfmt.active() and not symx._in_raise_or_warn():
+            return numfmt.log10(x)
         if symx.in_message_context():
             return 0.0  # inside report / table formatting: the rendered text is not the subject
         raise symx.Inconclusive("transcendental", "np.log10 on a symbolic value at %s" % symx._where())
@@ -1221,6 +1229,10 @@ def ceil(a):
 def around(a, decimals=0):
     def f(x):
         if _is_sym(x) or _is_sym(decimals):
+            from . import numfmt
+
+            if numfmt.active() and not _is_sym(decimals) and not symx._in_raise_or_warn():
+                return numfmt.round_to(x, decimals, exact=False)
             if symx.in_message_context():
                 return 1.0  # placeholder (log10 of it is finite)
             raise symx.Inconclusive("rounding", "np.around on a symbolic value at %s" % symx._where())
